@@ -1,7 +1,9 @@
 import ecs
+import essa
 
 CHECKS = {
     "C04": ecs.run,
     "C05": ecs.run,
     "C14": ecs.run,
+    "C06": essa.c06,
 }
